@@ -20,9 +20,42 @@ NEEDED_IN = ['title', 'format', 'instance_id', 'claim_generator_info', 'ingredie
 NOT_WIRED = {'metadata': 'ManifestDefinition.metadata is not read by to_claim on the pinned tree (not one of the fields the property names); reported as information'}
 
 
+def compression_rule(ctx, prog, T):
+    """start_save_stream: when the claim asks for a compressed manifest, every path out of that branch either added a box hash or cleared the flag"""
+    name = 'store::Store::start_save_stream'
+    if not ctx.require(prog.has(name), name):
+        return
+    fn = prog.fn(name)
+    calls = list(fn.calls())
+    ctx.analysed(name, len(calls))
+    comp = [bi for bi, t in calls if t['fd'].endswith('Claim::compressed')]
+    if not ctx.ob('C03-D5', name, 'pc.compressed() test', 'exists (one)', len(comp) == 1, detail=str(len(comp)), nontrivial=False):
+        return
+    cb = comp[0]
+    sw = fn.B[cb]['t']['t']
+    t = fn.B[sw]['t']
+    if not ctx.ob('C03-D5', name, 'pc.compressed() test', 'is branched on', t['k'] == 'switch', nontrivial=False):
+        return
+    zero = [x for v, x in t['ts'] if v == 0]
+    true_t, false_t = t['o'], zero[0]
+    discharge = set(bi for bi, tt in calls if (tt['fd'].endswith('Claim::set_compressed_manifest') and T.call_term(fn, bi).endswith(',0)'))
+                    or (tt['fd'].endswith('Claim::add_assertion') and 'BoxHash' in T.call_term(fn, bi)))
+    ctx.ob('C03-D5', name, 'discharge sites', 'set_compressed_manifest(false) and add_assertion(BoxHash) exist', len(discharge) >= 3, detail=str(sorted(discharge)), nontrivial=False)
+    # join = first block reachable from both edges that is reachable from the false edge
+    from_false = fn.reachable(false_t)
+    r = fn.reachable(true_t, avoid=discharge)
+    leak = sorted(x for x in r if x in from_false and x != sw)
+    # blocks shared with the false side are past the join: reaching any of them without a discharge is the violation (cleanup/unwind blocks excluded by requiring a path to a return of Ok)
+    okr = set(bi for bi, b in enumerate(fn.B) for dst, rv in b['s'] if dst['l'] == 0 and not dst['p'] and rv['k'] == 'agg' and rv.get('variant') == 'Ok')
+    bad = [x for x in leak if fn.reachable(x) & okr]
+    ctx.ob('C03-D5', name, 'leaving the compressed-manifest branch', 'only after adding a box hash or clearing the compressed flag (else the placeholder size cannot match)', not bad,
+           detail='blocks past the join reachable without discharge: %s' % bad[:4], site=loc(fn.B[cb]['t'].get('span')))
+
+
 def run(ctx):
     prog = ctx.prog(('c2pa',))
     T = Terms(prog)
+    compression_rule(ctx, prog, T)
     if not ctx.require(prog.has(TC), TC):
         return
     fn = prog.fn(TC)
@@ -169,3 +202,22 @@ def run(ctx):
         # every claim assertion is visited: loop over Claim::assertions() pushes to manifest.assertions (or is a tabled special label)
         pushes = [bi for bi, t in mcalls if re.search(r'Vec::<T, A>::push$|Vec::push$', t['fd']) and re.search(r'\.assertions\b|manifest\.assertions', T.call_term(mf, bi))]
         ctx.ob('C03-D3', name, 'manifest.assertions.push', 'present (generic assertions are reported)', len(pushes) >= 1, detail=str(len(pushes)))
+        # sibling agreement: every reported assertion carries the claim assertion's instance (labels of repeated assertions stay distinct)
+        npush = 0
+        for bi, t in mcalls:
+            if not re.search(r'Vec::<T, A>::push$|Vec::push$', t['fd']) or len(t['args']) < 2:
+                continue
+            ety = (t.get('at') or ['', ''])[1]
+            if 'ManifestAssertion' not in ety:
+                continue
+            npush += 1
+            vt = T.op_term(mf, t['args'][1])
+            if 'ManifestAssertion::' not in vt:
+                ots = [T.origin_term(mf, o)[0] for o in mf.origins(t['args'][1])]
+                ok_i = bool(ots) and all('ManifestAssertion::set_instance(' in x and 'ClaimAssertion::instance(' in x for x in ots)
+                vt = ' | '.join(ots)
+            else:
+                ok_i = 'ManifestAssertion::set_instance(' in vt and 'ClaimAssertion::instance(' in vt
+            ctx.ob('C03-D3', name, 'assertion pushed to manifest.assertions', 'built with set_instance(claim_assertion.instance()) like its siblings', ok_i,
+                   detail=re.sub(r'\(Claim[^)]*\)', '(..)', vt)[:160], site=loc(t.get('span')))
+        ctx.floor('ManifestAssertion pushes in ' + name.split('::')[2], npush, 5, rule='C03-D3')
